@@ -434,6 +434,13 @@ pub(crate) fn add_int_combination<W, R, T>(
             if k > n{
                 return xerr(ManagedXError::new("k cannot be greater than n", rt)?);
             }
+            if k == 0 {
+                // the only selection of no elements is the empty one
+                if i > 0 {
+                    return xerr(ManagedXError::new("i too large", rt)?);
+                }
+                return Ok(manage_native!(XSequence::<W, R, T>::Array(vec![]), rt));
+            }
             let mut s_cutoff = binomial(n-1,k-1);
             let total = s_cutoff*n/k;
             if i >= total{
@@ -477,8 +484,15 @@ pub(crate) fn add_int_combination_with_replacement<W, R, T>(
             let Some(mut i) = to_primitive!(a1, Int).to_usize() else { return xerr(ManagedXError::new("k out of bounds", rt)?); };
             let Some(mut k) = to_primitive!(a2, Int).to_usize() else { return xerr(ManagedXError::new("i out of bounds", rt)?); };
 
-            if k > n{
-                return xerr(ManagedXError::new("k cannot be greater than n", rt)?);
+            if k == 0 {
+                // the only selection of no elements is the empty one
+                if i > 0 {
+                    return xerr(ManagedXError::new("i too large", rt)?);
+                }
+                return Ok(manage_native!(XSequence::<W, R, T>::Array(vec![]), rt));
+            }
+            if n == 0 {
+                return xerr(ManagedXError::new("i too large", rt)?);
             }
             let mut s_cutoff = binomial(n+k-2,k-1);
             let total = (s_cutoff*(n+k-1))/k;
